@@ -1,8 +1,12 @@
 ------------------------ MODULE Trace_DiscoveryServer ------------------------
 (* code -> spec: lives of the real frappy.server.Server on a fake bind layer.          *)
-(*   boot     cfg up listening announce answers ok error                                *)
-(*   restart      up listening announce answers ok error                                *)
-(*   shutdown        listening          answers ok error                                *)
+(*   boot     cfg up held listening announce probed answers ok error                    *)
+(*   restart      up held listening announce probed answers ok error                    *)
+(*   shutdown             listening          probed answers ok error                    *)
+(*   run                  listening announce probed answers ok error                    *)
+(* held = the new responder thread was stopped before its first statement (or inside    *)
+(* its first sendto) and waits for "run"; probed = no thread was pending after the      *)
+(* operation, so a broadcast request was sent and answers holds the replies;            *)
 (* cfg = schemes, up = indices of the interfaces scripted to come up at this (re)start, *)
 (* listening = configured indices of the TCP ports really bound now (0: a port that is  *)
 (* not configured), answers / announce = <<g, i>> per message: g = generation of the    *)
@@ -18,14 +22,15 @@ Ev == Traces[t][l]
 Pairs(s) == {<<s[k][1], s[k][2]>> : k \in 1 .. Len(s)}
 
 (* judged on the state AFTER the operation *)
-Clauses(e, c, u, ph, g) ==
+Clauses(e, c, u, ph, g, cr) ==
    << <<e.ev \o ".no_error", e.error = "">>,
       <<e.ev \o ".listening", ToSet(e.listening) = (IF ph = "up" THEN Tcp(c) \cap u ELSE {})>>,
       <<e.ev \o ".messages_wellformed", e.ok>>,
+      <<e.ev \o ".probed_when_quiet", e.probed = (cr = {})>>,
       <<e.ev \o ".answers_current_identity", \A p \in Pairs(e.answers) : p[1] = g>>,
       <<e.ev \o ".answers_port_listened", \A p \in Pairs(e.answers) : p[2] \in ToSet(e.listening)>>,
       <<e.ev \o ".one_answer_per_port", Len(e.answers) = Cardinality(Pairs(e.answers))>>,
-      <<e.ev \o ".answers", Pairs(e.answers) = Demanded(c, u, ph, g)>>,
+      <<e.ev \o ".answers", e.probed => Pairs(e.answers) = Demanded(c, u, ph, g)>>,
       <<e.ev \o ".announce", e.ev = "shutdown" \/
             (Pairs(e.announce) \subseteq Demanded(c, u, ph, g) /\ Len(e.announce) = Cardinality(Pairs(e.announce)))>> >>
 FirstFalse(cl) == LET bad == {j \in 1 .. Len(cl) : ~ cl[j][2]}
@@ -33,27 +38,31 @@ FirstFalse(cl) == LET bad == {j \in 1 .. Len(cl) : ~ cl[j][2]}
 
 TInit == /\ t \in 1 .. NT /\ l = 1
          /\ cfg = Traces[t][1].cfg /\ up = {} /\ ever = {} /\ phase = "down" /\ gen = 0 /\ live = {}
+         /\ created = {} /\ closed = {}
          /\ given = <<>> /\ last = [kind |-> "none"]
 TStep == /\ l <= Len(Traces[t])
          /\ l' = l + 1 /\ t' = t
-         /\ \/ Ev.ev = "boot" /\ phase = "down" /\ Come("boot", ToSet(Ev.up))
-            \/ Ev.ev = "restart" /\ phase = "up" /\ Come("restart", ToSet(Ev.up))
+         /\ \/ Ev.ev = "boot" /\ phase = "down" /\ Come("boot", ToSet(Ev.up), Ev.held)
+            \/ Ev.ev = "restart" /\ phase = "up" /\ Come("restart", ToSet(Ev.up), Ev.held)
             \/ Ev.ev = "shutdown" /\ Shutdown
-         /\ FirstFalse(Clauses(Ev, cfg, up', phase', gen')) = ""
+            \/ Ev.ev = "run" /\ RunAll
+         /\ FirstFalse(Clauses(Ev, cfg, up', phase', gen', created')) = ""
 TSpec == TInit /\ [][TStep]_<<wvars, t, l>>
 
 Track == TLCSet(t, IF l > TLCGet(t) THEN l ELSE TLCGet(t))
 (* replays the operations of trace i up to event k to name the failing clause *)
 RECURSIVE StateAt(_, _)
-StateAt(i, k) ==      \* <<phase, gen, up>> after event k
-   IF k = 0 THEN <<"down", 0, {}>>
+StateAt(i, k) ==      \* <<phase, gen, up, created>> after event k
+   IF k = 0 THEN <<"down", 0, {}, {}>>
    ELSE LET s == StateAt(i, k - 1)
             e == Traces[i][k]
         IN IF e.ev \in {"boot", "restart"}
-           THEN (IF ToSet(e.up) = {} THEN <<"stopped", s[2], {}>> ELSE <<"up", s[2] + 1, ToSet(e.up)>>)
-           ELSE <<"stopped", s[2], {}>>
+           THEN (IF ToSet(e.up) = {} THEN <<"stopped", s[2], {}, s[4]>>
+                 ELSE <<"up", s[2] + 1, ToSet(e.up), IF e.held THEN s[4] \cup {s[2] + 1} ELSE s[4]>>)
+           ELSE IF e.ev = "run" THEN <<s[1], s[2], s[3], {}>>
+           ELSE <<"stopped", s[2], {}, s[4]>>
 Why(i, k) == LET s == StateAt(i, k)
-                 w == FirstFalse(Clauses(Traces[i][k], Traces[i][1].cfg, s[3], s[1], s[2]))
+                 w == FirstFalse(Clauses(Traces[i][k], Traces[i][1].cfg, s[3], s[1], s[2], s[4]))
              IN IF w = "" THEN "operation not enabled in DiscoveryServer" ELSE w
 Verdicts == \A i \in 1 .. NT :
    IF TLCGet(i) = Len(Traces[i]) + 1 THEN PrintT(<<"ACCEPT", i>>)
